@@ -199,7 +199,7 @@ def tiny : Doc Nat :=
      80, 0, 50⟩, ⟨(1, 0), none, none⟩⟩
 
 def PN : Params Nat := ⟨fun v => v != 13, fun _ => 0⟩
-def L5 : Layout := ⟨fun _ => 5, 7, 3⟩
+def L5 : Layout := ⟨fun _ => 5, fun _ => 7, fun _ => 3⟩
 
 /-- `tiny` is what loading its own bytes gives -/
 example : (match reload tiny.st true with
@@ -315,7 +315,7 @@ example : HistOK sampleOps := by
   intro op hop
   simp only [sampleOps, List.mem_cons, List.mem_nil_iff, or_false] at hop
   rcases hop with rfl | rfl | rfl | rfl | rfl | rfl | rfl | rfl | rfl | rfl <;>
-    first | trivial | exact ⟨fun _ => (by show 0 < 5; decide), (by show 0 < 7; decide)⟩
+    first | trivial | exact ⟨fun _ => (by show 0 < 5; decide), (by intro i; show 0 < 7; decide)⟩
 
 /-- the history runs as described: the first save fails, the other two succeed, and reloading the last
     revision reads every written reference at its last value and the untouched ones as before -/
